@@ -528,6 +528,103 @@ func runAct(casesPath, tracePath string, shard, shards int) {
 	fmt.Printf("c17 act cases=%d events=%d\n", n, tr.Len())
 }
 
+// ---------------------------------------------------------------- scripted hosts of mode retry
+
+// sArrival is one request seen by a scripted host.
+type sArrival struct {
+	Token, Upstream, Behave string
+}
+
+// sReg numbers the arrivals per token over all hosts and logs them.
+type sReg struct {
+	mu      sync.Mutex
+	n       map[string]int
+	log     map[string][]sArrival
+	release chan struct{}
+}
+
+func (r *sReg) arrivals(tok string) []sArrival {
+	r.mu.Lock()
+	defer r.mu.Unlock()
+	return append([]sArrival{}, r.log[tok]...)
+}
+
+// releaseAll ends every hanging handler (end of a run).
+func (r *sReg) releaseAll() {
+	r.mu.Lock()
+	close(r.release)
+	r.release = make(chan struct{})
+	r.mu.Unlock()
+}
+
+// newScriptUp starts a scripted HTTP/1.1 host. The request header X-Script holds one behaviour per arrival of the
+// token (the last one repeats): ok | sNNN | close (orderly close, no response) | rst (connection reset) | hang
+func newScriptUp(name string, reg *sReg) (addr string, stop func()) {
+	ln, err := net.Listen("tcp", "127.0.0.1:0")
+	vh.Must(err, "listen")
+	srv := &http.Server{Handler: http.HandlerFunc(func(w http.ResponseWriter, req *http.Request) {
+		tok := req.Header.Get("X-Token")
+		script := strings.Split(req.Header.Get("X-Script"), ",")
+		reg.mu.Lock()
+		i := reg.n[tok]
+		reg.n[tok]++
+		b := script[len(script)-1]
+		if i < len(script) {
+			b = script[i]
+		}
+		if b == "" {
+			b = "ok"
+		}
+		reg.log[tok] = append(reg.log[tok], sArrival{Token: tok, Upstream: name, Behave: b})
+		rel := reg.release
+		reg.mu.Unlock()
+		hijack := func() net.Conn {
+			if hj, ok := w.(http.Hijacker); ok {
+				if c, _, err := hj.Hijack(); err == nil {
+					return c
+				}
+			}
+			return nil
+		}
+		reply := func(code int) {
+			w.Header().Set("X-Token", tok)
+			w.Header().Set("X-Upstream", name)
+			w.WriteHeader(code)
+			w.Write([]byte(tok))
+		}
+		switch {
+		case b == "ok":
+			reply(200)
+		case b == "close":
+			if c := hijack(); c != nil {
+				c.Close()
+			}
+		case b == "rst":
+			if c := hijack(); c != nil {
+				if tc, ok := c.(*net.TCPConn); ok {
+					tc.SetLinger(0)
+				}
+				c.Close()
+			}
+		case b == "hang":
+			select {
+			case <-rel:
+			case <-req.Context().Done():
+			}
+			if c := hijack(); c != nil {
+				c.Close()
+			}
+		case strings.HasPrefix(b, "s"):
+			code, _ := strconv.Atoi(b[1:])
+			reply(code)
+		default:
+			reply(200)
+		}
+	})}
+	go srv.Serve(ln)
+	return ln.Addr().String(), func() { srv.Close() }
+}
+
 // ---------------------------------------------------------------- mode retry
 
 type policy struct {
@@ -574,15 +671,16 @@ func runRetry(casesPath, tracePath, resPath string, shard, shards int) {
 	}
 	tmp, _ := os.MkdirTemp("", "c17-")
 	defer os.RemoveAll(tmp)
-	reg := e2e.NewRegistry()
-	ups := []*e2e.HTTPUpstream{}
+	reg := &sReg{n: map[string]int{}, log: map[string][]sArrival{}, release: make(chan struct{})}
+	ups := []string{}
 	hostName := map[string]string{}
 	refs := []string{}
 	for i := 0; i < 4; i++ {
-		u := e2e.NewHTTPUpstream(fmt.Sprintf("u%d", i), reg)
-		defer u.Close()
-		ups = append(ups, u)
-		hostName[u.Addr] = u.Name
+		name := fmt.Sprintf("u%d", i)
+		a, stop := newScriptUp(name, reg)
+		defer stop()
+		ups = append(ups, a)
+		hostName[a] = name
 		r := e2e.FreeAddr()
 		refs = append(refs, r)
 		hostName[r] = fmt.Sprintf("ref%d", i)
@@ -595,13 +693,13 @@ func runRetry(casesPath, tracePath, resPath string, shard, shards int) {
 			if mask&(1<<i) != 0 {
 				hosts = append(hosts, refs[i])
 			} else {
-				hosts = append(hosts, ups[i].Addr)
+				hosts = append(hosts, ups[i])
 			}
 		}
 		specs = append(specs, e2e.ClusterSpec{Name: fmt.Sprintf("p%d", mask), Hosts: hosts, LbType: rrr})
 		specs = append(specs, e2e.ClusterSpec{Name: fmt.Sprintf("q%d", mask), Hosts: hosts, LbType: rrr, MaxRequests: 1})
 	}
-	specs = append(specs, e2e.ClusterSpec{Name: "rr0", Hosts: []string{ups[0].Addr, ups[1].Addr, ups[2].Addr, ups[3].Addr}, LbType: v2.LB_ROUNDROBIN})
+	specs = append(specs, e2e.ClusterSpec{Name: "rr0", Hosts: []string{ups[0], ups[1], ups[2], ups[3]}, LbType: v2.LB_ROUNDROBIN})
 	laddr := e2e.FreeAddr()
 	lst := e2e.BuildListener(e2e.ListenerSpec{Name: "c17", Addr: laddr, Downstream: "Http1", Upstream: "Http1",
 		Routes: []e2e.RouteSpec{{Prefix: "/", Cluster: "p0"}}})
@@ -650,7 +748,7 @@ func runRetry(casesPath, tracePath, resPath string, shard, shards int) {
 				return
 			}
 			o := "other:response"
-			arr := reg.Arrivals(curTok.Load().(string))
+			arr := reg.arrivals(curTok.Load().(string))
 			if len(arr) > 0 {
 				b := arr[len(arr)-1].Behave
 				switch b {
@@ -674,6 +772,8 @@ func runRetry(casesPath, tracePath, resPath string, shard, shards int) {
 				o = "cf"
 			case types.StreamConnectionTermination:
 				o = "term"
+			case types.UpstreamReset: // HTTP/1: the host closed the connection in an orderly way
+				o = "rclose"
 			case types.UpstreamPerTryTimeout:
 				o = "ptmo"
 			case types.UpstreamGlobalTimeout:
@@ -689,7 +789,7 @@ func runRetry(casesPath, tracePath, resPath string, shard, shards int) {
 	defer sched.Uninstall()
 	active := func() int64 { return metrics.NewListenerStats("c17").Counter(metrics.DownstreamRequestActive).Count() }
 
-	behave := map[string]string{"s200": "ok", "s404": "s404", "s500": "s500", "s503": "s503", "term": "close", "ptmo": "hang", "gtmo": "hang"}
+	behave := map[string]string{"s200": "ok", "s404": "s404", "s500": "s500", "s503": "s503", "term": "rst", "ptmo": "hang", "gtmo": "hang"}
 	idx, n := 0, 0
 	err := vh.ReadCases(casesPath, func(raw json.RawMessage) error {
 		idx++
@@ -742,6 +842,9 @@ func runRetry(casesPath, tracePath, resPath string, shard, shards int) {
 		bs := []string{}
 		for i := 0; i < 12; i++ {
 			if b, ok := behave[outcomeAt(c.Script, i)]; ok {
+				if b == "rst" && idx%3 == 0 { // every third run ends a connection in the orderly way instead
+					b = "close"
+				}
 				bs = append(bs, b)
 			}
 		}
@@ -790,7 +893,7 @@ func runRetry(casesPath, tracePath, resPath string, shard, shards int) {
 		}
 		o := cl.Recv(time.Duration(wait+5000)*time.Millisecond, 0)
 		cl.Close()
-		reg.ReleaseAll()
+		reg.releaseAll()
 		sched.ReleaseAll()
 		rid := atomic.LoadUint64(&firstRid)
 		if rid != 0 {
